@@ -446,7 +446,7 @@ impl Model {
                     l.remove(p).1
                 })),
                 Op::Resize(n) => {
-                    let n = *n as usize;
+                    let n = resize_target(*n);
                     let mut ev = 0u64;
                     if n != *cap {
                         if n < *cap {
